@@ -155,6 +155,29 @@ func (m *CLIManager) Install(ctx context.Context, installOpts CLIInstallOptions)
 	if err := validatePluginName(pluginName); err != nil {
 		return nil, nil, err
 	}
+	pluginDirPath, err := m.pluginFS.SysPath(pluginName)
+	if err != nil {
+		return nil, nil, fmt.Errorf("failed to get the system path of plugin %s: %w", pluginName, err)
+	}
+	// the clean up below removes the plugin directory: a source inside it would
+	// be removed before it is copied, leaving no plugin at all
+	if isPathWithin(installOpts.PluginPath, pluginDirPath) {
+		return nil, nil, fmt.Errorf("plugin source %s is inside the installation directory of plugin %s", installOpts.PluginPath, pluginName)
+	}
+	// a candidate without executable permission is only touched once its
+	// name and location are accepted
+	if !installFromNonDir {
+		isExec, err := isExecutableFile(pluginExecutableFile)
+		if err != nil {
+			return nil, nil, fmt.Errorf("failed to read plugin from input directory: %w", err)
+		}
+		if !isExec {
+			if err := setExecutable(pluginExecutableFile); err != nil {
+				return nil, nil, fmt.Errorf("failed to read plugin from input directory: no plugin executable file was found: %w", err)
+			}
+			logger.Warnf("Found candidate plugin executable file %q without executable permission. Setting user executable bit and trying to install.", filepath.Base(pluginExecutableFile))
+		}
+	}
 	// validate and get new plugin metadata
 	newPlugin, err := NewCLIPlugin(ctx, pluginName, pluginExecutableFile)
 	if err != nil {
@@ -190,15 +213,6 @@ func (m *CLIManager) Install(ctx context.Context, installOpts CLIInstallOptions)
 				return nil, nil, InstallEqualVersionError{Msg: fmt.Sprintf("plugin %s with version %s already exists", pluginName, existingPluginMetadata.Version)}
 			}
 		}
-	}
-	pluginDirPath, err := m.pluginFS.SysPath(pluginName)
-	if err != nil {
-		return nil, nil, fmt.Errorf("failed to get the system path of plugin %s: %w", pluginName, err)
-	}
-	// the clean up below removes the plugin directory: a source inside it would
-	// be removed before it is copied, leaving no plugin at all
-	if isPathWithin(installOpts.PluginPath, pluginDirPath) {
-		return nil, nil, fmt.Errorf("plugin source %s is inside the installation directory of plugin %s", installOpts.PluginPath, pluginName)
 	}
 	// clean up before installation, this guarantees idempotent for install
 	if err := m.Uninstall(ctx, pluginName); err != nil {
@@ -279,7 +293,6 @@ func parsePluginFromDir(ctx context.Context, path string) (string, string, error
 	if !fi.Mode().IsDir() {
 		return "", "", file.ErrNotDirectory
 	}
-	logger := log.GetLogger(ctx)
 	// walk the path
 	var pluginExecutableFile, pluginName, candidatePluginName string
 	var foundPluginExecutableFile bool
@@ -327,12 +340,8 @@ func parsePluginFromDir(ctx context.Context, path string) (string, string, error
 		// if no executable file was found, but there's one and only one
 		// potential candidate, try install the candidate
 		if len(filesWithValidNameFormat) == 1 {
-			candidate := filesWithValidNameFormat[0]
-			if err := setExecutable(candidate); err != nil {
-				return "", "", fmt.Errorf("no plugin executable file was found: %w", err)
-			}
-			logger.Warnf("Found candidate plugin executable file %q without executable permission. Setting user executable bit and trying to install.", filepath.Base(candidate))
-			return candidate, namesWithValidNameFormat[0], nil
+			// the caller sets the executable bit once the name is accepted
+			return filesWithValidNameFormat[0], namesWithValidNameFormat[0], nil
 		}
 		return "", "", errors.New("no plugin executable file was found")
 	}
